@@ -16,6 +16,8 @@ def g_dtext(r: random.Random) -> str:
     x = r.random()
     if x < 0.3:
         return r.choice(["desc", "A description", "RFC4512: object", "x"])
+    if x < 0.34:  # many escapes in one string
+        return "".join(r.choice(["'", "\\", "'\\", "a", " "]) for _ in range(r.choice([33, 40, 70, 130])))
     out = []
     for _ in range(r.choice([1, 2, 3, 5, 9])):
         y = r.random()
@@ -31,7 +33,7 @@ def g_dtext(r: random.Random) -> str:
 
 def g_oidlist(r, allow_empty=True):
     n = r.choice([0, 0, 1, 1, 2, 3, 6]) if allow_empty else r.choice([1, 1, 2, 3])
-    return [gv.g_oid(r) for _ in range(n)]
+    return [(gv.g_oid(r) if r.random() < 0.93 else r.choice(["a-", "abc-", "a--b", "x-1-", "msDS-Foo--", "a-b-c"])) for _ in range(n)]
 
 
 def g_ext(r) -> t.Dict[str, t.List[str]]:
